@@ -246,8 +246,45 @@ def gen_enum(t, out):
     out.append("")
 
 
+def gen_negative(src, negdir):
+    """Definitions the specification says the macro must reject: one bin target each (compile-fail tests)."""
+    import os
+    neg = parse_tlc_lines(src, "NEG")
+    bindir = os.path.join(negdir, "src", "bin")
+    os.makedirs(bindir, exist_ok=True)
+    for f in os.listdir(bindir):
+        os.remove(os.path.join(bindir, f))
+    index = []
+    for n in neg:
+        out = ["// GENERATED by harness/gen.py from spec/Catalog.tla NegCatalog: %s" % n["why"],
+               "// The #[flat] macro must REJECT this definition (the build of this target is expected to fail).",
+               "#![allow(dead_code)]",
+               "use flatty::{flat, portable::{be, le, Bool}, FlatString, FlatVec, FlexVec};", ""]
+        defs = {}
+        collect_defs(n["t"], defs)
+        body = []
+        for name in sorted(defs):
+            t = defs[name]
+            tmp = []
+            (gen_struct if t["k"] == "struct" else gen_enum)(t, tmp)
+            # only the definition itself, not the harness impls
+            keep = []
+            for line in tmp:
+                if line.startswith("impl "):
+                    break
+                keep.append(line)
+            body += [l for l in keep if not l.startswith("#[derive(")]
+        out += body
+        out += ["fn main() {}", ""]
+        open(os.path.join(bindir, n["id"].lower() + ".rs"), "w").write("\n".join(out))
+        index.append({"id": n["id"], "bin": n["id"].lower(), "why": n["why"], "portable": n["t"]["portable"]})
+    json.dump(index, open(os.path.join(negdir, "index.json"), "w"), indent=1)
+
+
 def main():
     src, dst = sys.argv[1], sys.argv[2]
+    if len(sys.argv) > 3:
+        gen_negative(src, sys.argv[3])
     cat = parse_tlc_lines(src, "DESC")
     cat.sort(key=lambda c: c["id"])
     defs = {}
